@@ -246,6 +246,7 @@ static void run_session(zcase *c, char *spec, zres *r) {
     r->nret = 0; r->verdict = 1;
     char *tr[64]; int ntr = 0;
     static char snaps[4096]; int sp = 0;
+    zckRange *range = NULL;
     snaps[0] = 0;
     tr[ntr++] = spec;
     for(char *p = spec; *p; p++) if(*p == '/') { *p = 0; if(ntr < 64) tr[ntr++] = p + 1; }
@@ -266,13 +267,18 @@ static void run_session(zcase *c, char *spec, zres *r) {
                 zck_clear_error(t.zck);
             }
         }
-        zck_dl_reset(dl);
-        zckRange *range = zck_get_missing_range(t.zck, -1);
-        if(range == NULL) {
-            /* the context is in error state: there is no request; whatever arrives must be refused cleanly */
-            if(r->nret < (int)sizeof(r->rets) - 1) r->rets[r->nret++] = 'E';
+        int cont = k > 0 && f4 && strchr(f4, 'n') != NULL;   /* n: the transfer in progress goes on (no reset, same range) */
+        if(!cont) {
+            zck_dl_set_range(dl, NULL);
+            if(range) zck_range_free(&range);
+            zck_dl_reset(dl);
+            range = zck_get_missing_range(t.zck, -1);
+            if(range == NULL) {
+                /* the context is in error state: there is no request; whatever arrives must be refused cleanly */
+                if(r->nret < (int)sizeof(r->rets) - 1) r->rets[r->nret++] = 'E';
+            }
+            if(!zck_dl_set_range(dl, range)) { printf("BADCASE range\n"); exit(2); }
         }
-        if(!zck_dl_set_range(dl, range)) { printf("BADCASE range\n"); exit(2); }
         char *hp[64]; unsigned char *hdr[64]; size_t hdrlen[64];
         int nh = split(f1, ',', hp, 64);
         for(int i = 0; i < nh; i++) hdr[i] = zh_unhex(hp[i], &hdrlen[i]);
@@ -291,11 +297,11 @@ static void run_session(zcase *c, char *spec, zres *r) {
         feed_transfer(c, &t, dl, hdr, hdrlen, nh, body, nbody, cuts, nc, r);
         for(int i = 0; i < nh; i++) free(hdr[i]);
         free(body); free(cuts);
-        zck_dl_set_range(dl, NULL);
-        if(range) zck_range_free(&range);
         sp += snprintf(snaps + sp, sizeof(snaps) - sp, "%s", k ? ";" : "");
         sp += vstring(c, &t, snaps + sp, sizeof(snaps) - sp);
     }
+    zck_dl_set_range(dl, NULL);
+    if(range) zck_range_free(&range);
     finish_result(c, &t, r, 0);
     {
         size_t ll = strlen(r->line);
